@@ -16,12 +16,18 @@ TECHNIQUE = ("runtime contracts against dense matrix exponentials / Gibbs averag
 def holstein(nmol, scheme, pdim=3, seed=0):
     from renormalizer.model import Phonon, Mol, HolsteinModel
     from renormalizer.utils import Quantity
-    rng = np.random.default_rng([seed, nmol, scheme, 1010])
+    variant = "distinct"
+    if isinstance(nmol, tuple):      # (number of molecules, variant): modes that share frequency and basis size but differ in displacement
+        nmol, variant = nmol
+    rng = np.random.default_rng([seed, nmol, scheme, 1010, len(variant)])
     mols = []
+    w_shared = float(rng.uniform(0.8, 1.4))
     for i in range(nmol):
-        w = float(rng.uniform(0.8, 1.4))
-        ph = Phonon.simple_phonon(Quantity(w), Quantity(float(rng.uniform(0.5, 1.2))), pdim)
-        mols.append(Mol(Quantity(float(rng.uniform(0.0, 0.5))), [ph]))
+        w = float(rng.uniform(0.8, 1.4)) if variant == "distinct" else w_shared
+        phs = [Phonon.simple_phonon(Quantity(w), Quantity(float(rng.uniform(0.5, 1.2)) * (1 if i % 2 == 0 else -0.6)), pdim)]
+        if variant == "twomodes":
+            phs.append(Phonon.simple_phonon(Quantity(w), Quantity(float(rng.uniform(0.3, 1.5))), pdim))
+        mols.append(Mol(Quantity(float(rng.uniform(0.0, 0.5))), phs))
     j = np.zeros((nmol, nmol))
     for i in range(nmol - 1):
         j[i, i + 1] = j[i + 1, i] = -float(rng.uniform(0.2, 0.6))
@@ -114,7 +120,7 @@ def worker(case, led):
             # evolve_exact on states and density operators, zero and non-zero offsets
             for offset in (0.0, 0.41):
                 hm = Mpo(model, offset=Quantity(offset))
-                rng = np.random.default_rng([seed, nmol, scheme, 77])
+                rng = np.random.default_rng([seed, nmol if isinstance(nmol, int) else nmol[0] + 10 * len(nmol[1]), scheme, 77])
                 psi = U.make_state(model, 1, 3, rng)
                 if psi is None:
                     continue
@@ -223,7 +229,7 @@ def check(run):
         for name, n in (("spinqn", 4), ("holstein", 4)) if run.tier == "quick" else (("spinqn", 4), ("holstein", 4), ("spin", 3), ("spinqn", 5)):
             for method in METHODS:
                 cases.append(("imag", name, n, method, s, run.tier))
-        for nmol in (1, 2):
+        for nmol in (1, 2, (2, "degenerate"), (1, "twomodes")) + (((2, "twomodes"),) if run.tier != "quick" else ()):
             for scheme in (2, 4):
                 cases.append(("exactprop", nmol, scheme, s, run.tier))
                 cases.append(("thermal_exact", nmol, scheme, s, run.tier))
@@ -233,7 +239,7 @@ def check(run):
                     cases.append(("thermal", 2, scheme, method, beta, s, run.tier))
     run_cases(run, worker, cases)
     run.rule = ("(a) imaginary-time branch of the 8 schemes x solvers x |H|tau in {0.1,0.5} vs normalised expm(-tau H)psi; (b) exact_propagator for Holstein models "
-                "(1-2 molecules, schemes 2 and 4, spaces GS/EX, real/imaginary/complex x, shift 0 and 0.37) vs dense expm; Mps/MpDm.evolve_exact with zero and non-zero "
+                "(1-2 molecules, distinct and degenerate mode frequencies with different displacements, 1-2 modes per molecule, schemes 2 and 4, spaces GS/EX, real/imaginary/complex x, shift 0 and 0.37) vs dense expm; Mps/MpDm.evolve_exact with zero and non-zero "
                 "offset incl. frame; (c) ThermalProp from max_entangled_ex/gs for beta over two decades, 3-5 schemes: energy, electronic and phonon occupations vs dense "
                 "Gibbs averages in the sector; exact thermal propagation; distinct = case tuples x clause")
     run.sample({"nmol": 2, "scheme": 4, "method": "tdvp_ps", "beta": 2.0, "sector": 1, "contract": "E = Tr(e^{-beta H} H P_1)/Tr(e^{-beta H} P_1) within the accumulated scheme bound"})
